@@ -273,7 +273,7 @@ PROPS["C03"] = {
                   "C03_window_bound, C03_recovered_first, C03_space_bound / C03_space_within_limit (the files of the directory never hold more "
                   "than persistent_chunk_bytes, and that gauge never exceeds the configured limit or what was found at the start), "
                   "C03_memory_bound (at every quiescent point every queued entry is unloaded: the loaded chunks are the window and at "
-                  "most one in the feeder's hand); C03_conserved_every_schedule, C03_fifo_every_schedule, C03_unchanged_every_schedule "
+                  "most one in the feeder's hand); C03_loaded_bound_every_schedule (at every point of every interleaving of feeder steps with the operations at most queueCap + 1 + memCap chunks are loaded: input channel, the feeder's hand, window), C03_conserved_every_schedule, C03_fifo_every_schedule, C03_unchanged_every_schedule "
                   "(conservation, FIFO, byte identity and the window bound for every interleaving of single feeder steps with the "
                   "operations, from a start at which nothing has been loaded yet; the quiescing runs are among these schedules: "
                   "C03_quiescent_runs_are_schedules). Tie: state-by-state correspondence of the real buffer with the model at "
@@ -285,7 +285,7 @@ PROPS["C03"] = {
                   "concurrently at shutdown' and the loaded chunks sitting in the input channel between quiescent points are outside "
                   "the theorems (harness oracle only); in the model a hand-back and the feeder's saving are separate atomic actions (the "
                   "concurrent-shutdown cases run them truly concurrently against the oracle).",
-    "partial": "space and memory bounds proved at quiescent points; file writes atomic in the model (C04 models their steps)",
+    "partial": "space bound proved at quiescent points, memory bound for every schedule (queueCap + 1 + memCap) and exactly at quiescent points; file writes atomic in the model (C04 models their steps)",
     "assumptions": ["chunk ids are never reused (C11_ids_increasing) and nobody else writes to the queue directory",
                     "file operations are atomic at this level (step-level disk model: C04)"],
 }
